@@ -283,4 +283,14 @@ theorem in_front_of_zeros (o : Opts) (b : Bytes) (m : Msg) (r : Bytes) (L : Nat)
     (List.replicate n (0 : UInt8)).length = n :=
   ⟨suffix_irrelevant o b m r L h hd _, List.length_replicate⟩
 
+/-- the hypotheses of `in_front_of_zeros` are met: a twelve-octet control message declares (and has) length 12, and in
+    front of five zero octets it decodes to the same message with the five left over -/
+example :
+    (decode Opts.strict : M Bytes (List DErr) Msg) [0x13, 0x20, 0, 12, 0, 1, 0, 2, 0, 3, 0, 4]
+      = .ok (.control { length := 12, tunnelId := 1, sessionId := 2, ns := 3, nr := 4, avps := [] }) [] ∧
+    (Msg.control { length := 12, tunnelId := 1, sessionId := 2, ns := 3, nr := 4, avps := [] }).declared = some 12 ∧
+    (decode Opts.strict : M Bytes (List DErr) Msg) ([0x13, 0x20, 0, 12, 0, 1, 0, 2, 0, 3, 0, 4] ++ List.replicate 5 0)
+      = .ok (.control { length := 12, tunnelId := 1, sessionId := 2, ns := 3, nr := 4, avps := [] }) (List.replicate 5 0) := by
+  decide
+
 end Rl2tp.C08
